@@ -623,6 +623,8 @@ struct State {
     fault_fired: u64,
     /// a failing `write` applies the first half of its bytes before it reports the error
     short_writes: bool,
+    /// Write::write takes at most this many bytes per call (0 = everything)
+    write_limit: usize,
     /// set by `enter2` for the call in progress
     short_write_now: bool,
     fault_first_fired_at: Option<u64>,
@@ -726,6 +728,12 @@ impl SimFs {
     }
     /// (times fired, op index of the first firing)
     /// Failing writes become short writes: half of the bytes are written before the error.
+    /// Files accept at most `limit` bytes per `Write::write` call and report how many they took -
+    /// what `std::io::Write` allows any writer to do (a full pipe, a quota, a network file system).
+    /// 0 switches the limit off. `append` (raindb's own trait method) always takes everything.
+    pub fn set_write_limit(&self, limit: usize) {
+        self.shared.state.lock().write_limit = limit;
+    }
     pub fn set_short_writes(&self, on: bool) {
         self.shared.state.lock().short_writes = on;
     }
@@ -1013,6 +1021,10 @@ impl Seek for SimFile {
 
 impl Write for SimFile {
     fn write(&mut self, buf: &[u8]) -> io::Result<usize> {
+        let limit = self.fs.shared.state.lock().write_limit;
+        if limit > 0 && buf.len() > limit {
+            return self.write_at_cursor(&buf[..limit], false);
+        }
         self.write_at_cursor(buf, false)
     }
     fn flush(&mut self) -> io::Result<()> {
